@@ -20,9 +20,20 @@ def tn(k):
 def boom(k, cls=ValueError, msg='bad'):
     TRACE.append(k)
     raise cls(msg)
+import contextlib as _ctxlib
+@_ctxlib.contextmanager
+def ctx(k):
+    TRACE.append(k)
+    yield k
+def deco(f):
+    return f
 '''
 
 KINDS = ['assign', 'print', 'print2', 'expr', 'printexpr', 'none', 'multi', 'compound', 'def']
+# the richer statement grammar of the C01 program generator (C01, C18, C19, C20)
+MORE_KINDS = ['augassign', 'for', 'while', 'with', 'try', 'decodef', 'class', 'literal_comment', 'triple', 'triple_unprefixed',
+              'import', 'semicolon', 'comment', 'async_await', 'async_for', 'async_with']
+ALL_KINDS = KINDS + MORE_KINDS
 
 
 class Stmt:
@@ -61,20 +72,76 @@ class Stmt:
             self.out = 'c%da\nc%db\n' % (k, k)
         elif kind == 'def':
             self.lines = ['def f%d():' % k, '    return 1', 'u%d = t(%d)' % (k, k)]
-            self.two = True
+            self.starts = [0, 2]
+        elif kind == 'augassign':
+            self.lines = ['c%d = 0' % k, 'c%d += t(%d)' % (k, k)]
+            self.starts = [0, 1]
+        elif kind == 'for':
+            self.lines = ['for i%d in range(t(%d) - %d + 2):' % (k, k, k), "    print('f%d', i%d)" % (k, k)]
+            self.out = 'f%d 0\nf%d 1\n' % (k, k)
+        elif kind == 'while':
+            self.lines = ['while t(%d) < 0:' % k, '    pass']
+        elif kind == 'with':
+            self.lines = ['with ctx(%d) as cm%d:' % (k, k), "    print('w%d', cm%d)" % (k, k)]
+            self.out = 'w%d %d\n' % (k, k)
+        elif kind == 'try':
+            self.lines = ['try:', "    print('t%d', t(%d))" % (k, k), '    1 / 0', 'except ZeroDivisionError:', "    print('caught%d')" % k,
+                          'finally:', "    print('fin%d')" % k]
+            self.out = 't%d %d\ncaught%d\nfin%d\n' % (k, k, k, k)
+        elif kind == 'decodef':
+            self.lines = ['@deco', 'def g%d(x):' % k, '    y = x + 1', '    return y', 'r%d = g%d(t(%d))' % (k, k, k)]
+            self.starts = [0, 4]
+        elif kind == 'class':
+            self.lines = ['class K%d(object):' % k, '    v = t(%d)' % k, '    def m(self):', '        return self.v']
+        elif kind == 'literal_comment':
+            self.lines = ['m%d = [t(%d),  # an inner comment' % (k, k), '      2,', '      ]']
+        elif kind == 'triple':
+            self.lines = ["s%d = t(%d) and '''first" % (k, k), "  body %d" % k, "last'''"]
+        elif kind == 'triple_unprefixed':
+            self.lines = ["s%d = t(%d) and '''first" % (k, k), "  body %d" % k, "last'''"]
+            self.unprefixed = [1, 2]
+        elif kind == 'import':
+            self.lines = ['import json', 'j%d = json.dumps(t(%d))' % (k, k)]
+            self.starts = [0, 1]
+        elif kind == 'semicolon':
+            self.lines = ['p%d = t(%d); q%d = p%d + 1' % (k, k, k, k)]
+        elif kind == 'comment':
+            self.lines = ['# a comment before statement %d' % k, 'cc%d = t(%d)' % (k, k)]
+            self.starts = [0, 1]
+        elif kind == 'async_await':
+            self.lines = ['async def co%d():' % k, '    return t(%d)' % k, 'aw%d = await co%d()' % (k, k)]
+            self.starts = [0, 2]
+        elif kind == 'async_for':
+            self.lines = ['async def ag%d():' % k, '    yield t(%d)' % k, 'async for z%d in ag%d():' % (k, k), "    print('ag%d', z%d)" % (k, k)]
+            self.starts = [0, 2]
+            self.out = 'ag%d %d\n' % (k, k)
+        elif kind == 'async_with':
+            self.lines = ['import contextlib', '@contextlib.asynccontextmanager', 'async def ac%d():' % k, '    yield t(%d)' % k,
+                          'async with ac%d() as av%d:' % (k, k), "    print('aw%d', av%d)" % (k, k)]
+            self.starts = [0, 1, 4]
+            self.out = 'aw%d %d\n' % (k, k)
         else:
             raise KeyError(kind)
 
     def render(self, style='ps2', indent=0):
-        """prompted source lines"""
+        """prompted source lines.  style ps2: continuation lines get '... '; ps1: every line gets '>>> ';
+        lines listed in self.unprefixed (bodies of triple-quoted strings) get no prompt at all"""
         out = []
         pad = ' ' * indent
+        starts = getattr(self, 'starts', [0])
+        unpref = getattr(self, 'unprefixed', [])
         for j, l in enumerate(self.lines):
-            if j == 0 or (self.kind == 'def' and j == 2):
+            if j in unpref:
+                out.append(pad + l)
+            elif j in starts:
                 out.append(pad + '>>> ' + l)
             else:
                 out.append(pad + ('>>> ' if style == 'ps1' else '... ') + l)
         return out
+
+    def plain_source(self):
+        """the de-prompted statement(s) as ordinary Python source lines"""
+        return list(self.lines)
 
 
 def correct_wants(stmts, lo, j):
@@ -123,3 +190,47 @@ def render_doc(stmts, wants, style='ps2', indent=0, blank_after_want=False):
             if blank_after_want:
                 lines.append('')
     return '\n'.join(lines)
+
+
+PROSE = ['Some prose here.', 'More text about the example:', 'Note the following.', 'Args: none', 'Returns: nothing']
+
+
+def gen_program(rng, n=None, kinds=None):
+    kinds = kinds or ALL_KINDS
+    n = n or rng.randint(1, 8)
+    return [Stmt(rng.choice(kinds), 10 + i) for i in range(n)]
+
+
+def render_layout(rng, stmts, want_prob=0.6, allow_prose=True, google=None):
+    """a well formed docstring holding the program: prompt style, indentation, wants (correct by
+    construction), blank lines and prose between statements.  Returns (text, wants: {stmt index: text})"""
+    style = rng.choice(['ps1', 'ps2', 'ps2'])
+    google = rng.random() < 0.3 if google is None else google
+    lines = []
+    wants = {}
+    lo = 0
+    prev = 'text'
+    if google:
+        lines += ['Summary.', '', 'Example:']
+        indent = 4
+    else:
+        indent = rng.choice([0, 0, 4])
+        if allow_prose and rng.random() < 0.4:
+            lines += [rng.choice(PROSE), '']
+    for j, s in enumerate(stmts):
+        if j and allow_prose and not google and rng.random() < 0.15:
+            lines += ['', rng.choice(PROSE), '']
+            prev = 'text'
+        elif j and rng.random() < 0.2 and prev == 'want':
+            lines.append('')
+            prev = 'text'
+        lines += s.render(style, indent)
+        prev = 'src'
+        cw = correct_wants(stmts, lo, j)
+        if cw and rng.random() < want_prob:
+            name = rng.choice(sorted(k for k in cw if k in ('all', 'repr')) or sorted(cw))
+            wants[j] = cw[name]
+            lines += [' ' * indent + w for w in cw[name].split('\n')]
+            lo = j + 1
+            prev = 'want'
+    return '\n'.join(lines), wants
